@@ -761,6 +761,94 @@ def r9(F, R):
         R.bad("C13-R9", "positive-control", "fixtures/positive", "matcher misses planted divisions: found %s" % sorted(ph))
 
 
+
+STRING_BYTE_OPS = {"truncate", "split_off", "insert", "insert_str", "remove", "drain", "replace_range"}
+STR_BYTE_OPS = {"split_at", "split_at_mut", "split_at_checked"}
+BOUNDARY_SOURCES = {"is_char_boundary", "char_indices", "floor_char_boundary", "ceil_char_boundary", "find", "rfind", "len_utf8", "match_indices", "rmatch_indices"}
+
+
+def _byte_offset_string_ops(F, in_scope):
+    hits = []
+    for b in sorted(F.bodies.values(), key=lambda x: x.path):
+        if not in_scope(b) or K.is_std_derive(b):
+            continue
+        names = {t["callee"].get("name") for _bb, t in b.calls()}
+        guarded = bool(names & BOUNDARY_SOURCES)
+        for bb, t in b.calls():
+            c = t["callee"]
+            p = strip_generics(c.get("path", ""))
+            nm = c.get("name")
+            what = None
+            if nm in STRING_BYTE_OPS and p.endswith("string::String::" + nm):
+                what = "String::%s" % nm
+            elif nm in STR_BYTE_OPS and "str" in p and "slice" not in p:
+                what = "str::%s" % nm
+            elif nm in ("index", "index_mut") and c.get("self_ty") == "str" and not any("RangeFull" in str(g) for g in c.get("gargs") or []):
+                what = "str[range]"
+            if what is None or (t.get("span") or {}).get("exp"):
+                continue
+            # a literal offset 0 is always a boundary
+            offs = [b.value(a) for a in t["args"][1:2]]
+            if offs and offs[0][0] == "const" and str(offs[0][2]) in ("0", "0_usize"):
+                continue
+            hits.append((b, bb, t, what, guarded))
+    return hits
+
+
+def r13(F, R):
+    R.rule("C13-R13", "no byte offset into a string that can fall inside a character: String::truncate / split_off / insert / remove / drain / replace_range, "
+                      "str::split_at and `&s[a..b]` panic when the offset is not on a UTF-8 character boundary; texts that reach the library from outside (the "
+                      "message of a density error, names, paths) contain whatever the model puts there. A function that uses such an operation also derives "
+                      "the offset from the string (is_char_boundary, char_indices, find, floor_char_boundary)")
+    hits = _byte_offset_string_ops(F, lambda b: not ("::tests::" in b.path or b.path.startswith("tests::")))
+    bad = [h for h in hits if not h[4]]
+    for (b, bb, t, what, _g) in bad:
+        R.bad("C13-R13", "%s:%s" % (b.path, what), "%s @%s" % (b.path, loc(t["span"])), "%s at a byte offset that is not derived from the string's character boundaries: "
+              "panics (in the chain worker: poisons the locks and surfaces as a panic of the caller) for a multi-byte character at that offset" % what)
+    if not bad:
+        R.ok("C13-R13", "scan", "library crates", "%d bodies, %d byte-offset string operation(s), all with a boundary source in the same function" % (len(F.bodies), len(hits)))
+    P = K.positive_facts()
+    ph = {b.path.split("::")[-1] for (b, _bb, _t, _w, g) in _byte_offset_string_ops(P, lambda b: True) if not g}
+    if {"c13_string_truncate", "c13_str_slice"} <= ph and "c13_string_truncate_on_boundary" not in ph:
+        R.ok("C13-R13", "positive-control", "fixtures/positive", "the planted truncate / slice are reported, the boundary-aware one is not")
+    else:
+        R.bad("C13-R13", "positive-control", "fixtures/positive", "matcher misses planted string operations: found %s" % sorted(ph))
+
+
+def r14(F, R, rid="C13-R14"):
+    R.rule(rid, "a divergence is not an error: wherever a LeapfrogResult is matched (tree extension, MCLMC kernel, step-size search), no `Err(..)` of the function's "
+                "own making is reachable from the Divergence arm before the next leapfrog - a divergence, including one caused by a recoverable density error, "
+                "ends the trajectory or the search, never the chain (errors propagated with `?` from other fallible calls on that path are theirs, not this arm's)")
+    n = 0
+    for b in sorted(F.bodies.values(), key=lambda x: x.path):
+        sws = [(bi, blk["term"]) for bi, blk in enumerate(b.blocks) if not blk["cleanup"] and blk["term"]["k"] == "switch"
+               and path_ends(blk["term"].get("enum_adt") or "", "hamiltonian::LeapfrogResult") and any(a.get("name") == "Divergence" for a in blk["term"]["arms"])]
+        if not sws:
+            continue
+        leap = [bb for bb, t in b.calls() if t["callee"].get("name") == "leapfrog"]
+        own_errs = set()
+        for bi, blk in enumerate(b.blocks):
+            if blk["cleanup"]:
+                continue
+            for st in blk["stmts"]:
+                if st["k"] == "assign" and st["pl"]["l"] == 0 and not st["pl"]["p"] and st["rv"]["k"] == "agg" and st["rv"].get("variant") == "Err":
+                    own_errs.add(bi)
+        for (bi, t) in sws:
+            tgt = [a["target"] for a in t["arms"] if a.get("name") == "Divergence"][0]
+            reach = b.reach_from(tgt, avoid=leap) | {tgt}
+            hit = sorted(own_errs & reach)
+            key = "%s:divergence-arm#%d" % (b.path, n)
+            n += 1
+            site = "%s @%s" % (b.path, b.loc())
+            if hit:
+                sp = [st["span"] for st in b.blocks[hit[0]]["stmts"] if st.get("span")]
+                R.bad(rid, "%s:divergence-arm" % b.path, "%s @%s" % (b.path, loc(sp[-1])) if sp else site,
+                      "the Divergence arm leads to an `Err(..)` built in this function: a divergence (e.g. a recoverable density error in the trial step of the "
+                      "step-size search, which also runs in mid-warmup) terminates the chain")
+            else:
+                R.ok(rid, key, site, "no own Err reachable from the Divergence arm (%d own Err site(s) in the function)" % len(own_errs))
+    R.floor(rid, 4)
+
 def run(F, R, config="all"):
     feats = (F.crates and [c for c in F.crates if c["name"] == "nuts_rs"][0]["features"]) or []
     if "parallel" not in feats:
@@ -781,6 +869,8 @@ def run(F, R, config="all"):
     r10(F, R)
     r11(F, R)
     r12(F, R)
+    r13(F, R)
+    r14(F, R)
     # a panic in the chain worker is not an Err: the MCLMC retry bookkeeping must cover its step budget or `assert!(steps_taken >= num_base_steps)` fires
     from . import c18
     K.borrow_rule(R, lambda sub: c18.r4(F, sub), "C13-R7", "recoverable density errors inside an MCLMC trajectory are retried with a smaller step without ever tripping the "
